@@ -1,12 +1,14 @@
 package ledger
 
 import (
+	"bytes"
 	"fmt"
 	"sort"
 
 	"github.com/nspcc-dev/neo-go/pkg/config"
 	"github.com/nspcc-dev/neo-go/pkg/core/block"
 	"github.com/nspcc-dev/neo-go/pkg/core/mpt"
+	"github.com/nspcc-dev/neo-go/pkg/core/state"
 	"github.com/nspcc-dev/neo-go/pkg/core/statesync"
 	"github.com/nspcc-dev/neo-go/pkg/core/storage"
 	"github.com/nspcc-dev/neo-go/pkg/core/transaction"
@@ -38,6 +40,9 @@ type SyncPlan struct {
 	Restarts  []int  `json:"restarts"`   // restart T after this many deliveries (any kind)
 	CrashJump bool   `json:"crash_jump"` // enumerate crash points of the final jump
 	TailSeed  uint64 `json:"tail_seed"`  // seeds the decision stream once the explicit tape is used up
+	// Raw: contract-storage-based mode (NeoFSStateSyncExtensions): the storage items of the sync point arrive as an ordered
+	// stream of key/value batches (what the NeoFS state fetcher feeds) instead of MPT nodes
+	Raw bool `json:"raw,omitempty"`
 }
 
 func drawSync(rt *rapid.T, p *Plan, tier string) *Plan {
@@ -65,6 +70,11 @@ func drawSync(rt *rapid.T, p *Plan, tier string) *Plan {
 	sort.Ints(sp.Restarts)
 	sp.CrashJump = rapid.IntRange(0, 2).Draw(rt, "crashjump") == 0
 	sp.TailSeed = rapid.Uint64Range(0, 1<<40).Draw(rt, "tailseed")
+	sp.Raw = rapid.IntRange(0, 2).Draw(rt, "raw") == 0
+	if sp.Raw {
+		sp.TargetGC = true // the storage-based mode is refused on archival nodes
+		p.Proto.StateRootInHeader = rapid.Bool().Draw(rt, "rawsrih")
+	}
 	p.Sync = sp
 	p.Election = max(0, rapid.IntRange(0, 6).Draw(rt, "election")-3)
 	p.Tape = drawTape(rt, 300)
@@ -80,12 +90,28 @@ type syncRun struct {
 	restarts   map[int]bool
 	tlocal     Local
 	mod        *statesync.Module // one module per target instance (GetStateSyncModule creates a new one each call)
+	rawInit    bool              // InitContractStorageSync done on this module
+	rawStream  []storage.KeyValue
 }
 
 func (r *run) syncHook(interval int) func(*config.Blockchain) {
 	return func(c *config.Blockchain) {
-		c.P2PStateExchangeExtensions = true
+		c.P2PStateExchangeExtensions = c.StateRootInHeader // (the source of a storage-based run may have no roots in headers)
 		c.StateSyncInterval = interval
+	}
+}
+
+// targetHook: the target of a storage-based synchronisation runs with NeoFSStateSyncExtensions (the fetcher services
+// themselves belong to the network server and are the harness here; the ledger only checks that they are configured).
+func (r *run) targetHook(sp *SyncPlan) func(*config.Blockchain) {
+	if !sp.Raw {
+		return r.syncHook(sp.Interval)
+	}
+	return func(c *config.Blockchain) {
+		c.NeoFSStateSyncExtensions = true
+		c.NeoFSBlockFetcher.Enabled = true
+		c.NeoFSStateFetcher.Enabled = true
+		c.StateSyncInterval = sp.Interval
 	}
 }
 
@@ -132,7 +158,7 @@ func (r *run) runSync() {
 		sr.restarts[x] = true
 	}
 	sr.tlocal = Local{Backend: sp.Backend, RemoveOld: sp.TargetGC, KeepLatest: sp.TargetKL, GCPeriod: 2, VerifyTx: true}
-	T, err := newNodeWithHook(r.t, "T", r.plan.Proto, sr.tlocal, r.syncHook(sp.Interval))
+	T, err := newNodeWithHook(r.t, "T", r.plan.Proto, sr.tlocal, r.targetHook(sp))
 	if T != nil {
 		r.nodes = append(r.nodes, T)
 	}
@@ -160,7 +186,7 @@ func (sr *syncRun) delivered() bool {
 		if err != nil {
 			sim.Harnessf("image: %v", err)
 		}
-		n := &Node{Name: "T'", Local: sr.tlocal, Proto: r.plan.Proto, logs: &logCore{counts: map[string]int{}}, tb: &tbShim{TB: r.t}, Disk: img, hook: r.syncHook(sr.sp.Interval)}
+		n := &Node{Name: "T'", Local: sr.tlocal, Proto: r.plan.Proto, logs: &logCore{counts: map[string]int{}}, tb: &tbShim{TB: r.t}, Disk: img, hook: r.targetHook(sr.sp)}
 		if img.Dir != "" {
 			n.dirs = append(n.dirs, img.Dir)
 		}
@@ -184,6 +210,7 @@ func (sr *syncRun) delivered() bool {
 func (sr *syncRun) initModule() bool {
 	m := sr.T.BC.GetStateSyncModule()
 	sr.mod = m
+	sr.rawInit = false
 	if m.IsInitialized() {
 		return true
 	}
@@ -236,7 +263,11 @@ func (sr *syncRun) run() {
 				return
 			}
 		case m.NeedStorageData():
-			if !sr.feedNodes() {
+			if sp.Raw {
+				if !sr.feedRaw() {
+					return
+				}
+			} else if !sr.feedNodes() {
 				return
 			}
 		case m.NeedBlocks():
@@ -375,6 +406,77 @@ func (sr *syncRun) feedHeaders() bool {
 	return sr.delivered()
 }
 
+// feedRaw: storage-based mode. The stream is what `util upload-state` writes for the sync point: every pair of the
+// state in SeekStates order. The fetcher resumes after the module's last stored key; batch sizes are the tape's.
+func (sr *syncRun) feedRaw() bool {
+	r := sr.r
+	m := sr.module()
+	rootP, err := util.Uint256DecodeStringLE(r.ref[sr.P].Detail["stateroot"])
+	if err != nil {
+		sim.Harnessf("root: %v", err)
+	}
+	if sr.rawStream == nil {
+		sr.S.BC.GetStateModule().SeekStates(rootP, []byte{}, func(k, v []byte) bool {
+			sr.rawStream = append(sr.rawStream, storage.KeyValue{Key: bytes.Clone(k), Value: bytes.Clone(v)})
+			return true
+		})
+		if len(sr.rawStream) == 0 {
+			sim.Harnessf("the source has no state at the sync point %d", sr.P)
+		}
+	}
+	if !sr.rawInit {
+		var ierr error
+		if pv := sim.Recover(func() { ierr = m.InitContractStorageSync(state.MPTRoot{Index: sr.P, Root: rootP}) }); pv != nil {
+			pv.Msg = "InitContractStorageSync panicked: " + pv.Msg
+			r.violate(pv)
+			return false
+		}
+		if ierr != nil {
+			r.violate(sim.Violatef("sync-init-failed", "sync-init-failed/storage", "InitContractStorageSync(%d, %s) refused on the (re)started target: %v", sr.P, rootP.StringLE()[:12], ierr))
+			return false
+		}
+		sr.rawInit = true
+	}
+	idx := 0
+	if last := m.GetLastStoredKey(); len(last) > 0 {
+		idx = -1
+		for i := range sr.rawStream {
+			if bytes.Equal(sr.rawStream[i].Key, last) {
+				idx = i + 1
+				break
+			}
+		}
+		if idx < 0 {
+			r.violate(sim.Violatef("sync-raw-lastkey", "", "the module's last stored key %x is not a key of the sync point's state", last))
+			return false
+		}
+		r.out.Probes["raw_resumed_after_key"]++
+	}
+	if idx >= len(sr.rawStream) {
+		r.violate(sim.Violatef("sync-raw-incomplete", "", "all %d storage items of sync point %d were delivered, the module still asks for storage data", len(sr.rawStream), sr.P))
+		return false
+	}
+	n := min(1+r.tape.Choose(max(1, sr.sp.NodeBatch*3)), len(sr.rawStream)-idx)
+	batch := make([]storage.KeyValue, 0, n)
+	for _, kv := range sr.rawStream[idx : idx+n] {
+		batch = append(batch, storage.KeyValue{Key: bytes.Clone(kv.Key), Value: bytes.Clone(kv.Value)})
+	}
+	var aerr error
+	if pv := sim.Recover(func() { aerr = m.AddContractStorageItems(batch) }); pv != nil {
+		pv.Msg = fmt.Sprintf("AddContractStorageItems(%d items from #%d) panicked: %s", n, idx, pv.Msg)
+		r.violate(pv)
+		return false
+	}
+	sim.Wait()
+	if aerr != nil {
+		r.violate(sim.Violatef("sync-raw-rejected", "", "valid storage items #%d..#%d of sync point %d rejected: %v", idx, idx+n-1, sr.P, aerr))
+		return false
+	}
+	r.out.Probes["sync_raw_batches"]++
+	r.out.Probes["sync_raw_items"] += n
+	return sr.delivered()
+}
+
 // nodeBytes asks the source for an MPT node the way handleGetMPTDataCmd does.
 func (sr *syncRun) nodeBytes(h util.Uint256) []byte {
 	var res []byte
@@ -474,7 +576,7 @@ func (sr *syncRun) feedBlocks() bool {
 			return false
 		}
 	}
-	b, err := decodeBlock(r.raw[next], true)
+	b, err := decodeBlock(r.raw[next], r.plan.Proto.StateRootInHeader)
 	if err != nil {
 		sim.Harnessf("decode block: %v", err)
 	}
@@ -514,7 +616,7 @@ func (sr *syncRun) crashJump() {
 			sim.Harnessf("image: %v", err)
 		}
 		r.out.Faults["crash_during_jump"]++
-		n := &Node{Name: fmt.Sprintf("T@%d", k), Local: sr.tlocal, Proto: r.plan.Proto, logs: &logCore{counts: map[string]int{}}, tb: &tbShim{TB: r.t}, Disk: img, hook: r.syncHook(sr.sp.Interval)}
+		n := &Node{Name: fmt.Sprintf("T@%d", k), Local: sr.tlocal, Proto: r.plan.Proto, logs: &logCore{counts: map[string]int{}}, tb: &tbShim{TB: r.t}, Disk: img, hook: r.targetHook(sr.sp)}
 		if img.Dir != "" {
 			n.dirs = append(n.dirs, img.Dir)
 		}
